@@ -187,12 +187,107 @@ class SplitByFeature(Contract):
                      ("rows_unchanged", _unchanged(out, old), ()), ("frame.self_untouched", _unchanged(inp["me"].df, old), ())]
 
 
-CONTRACTS = [GetSubset, RemoveFeature, Intersection, MergeAndRenumber, RenumberParticles, SplitByFeature]
+class _SortTable:
+    """a table as position functions (row position -> cell), with the two pandas operations Motl.drop_duplicates uses, under their assumed contracts:
+    sort_values(by=[k1, k2], ascending=[a1, a2]) -- a permutation of the rows, lexicographically ordered by (k1, k2) in the given directions;
+    drop_duplicates(subset=k) -- keeps, in order, exactly the rows that are the FIRST occurrence of their value of k"""
+    n_made = 0
+
+    def __init__(self, cols, n, src=None, kept=None, history=()):
+        self.cols, self.n, self.src, self.kept, self.history = cols, n, src, kept, list(history)
+        self.reset = False
+
+    @staticmethod
+    def fresh(names, prefix):
+        n = z3.Int(f"N_{prefix}")
+        ctx().assume(n >= 0)
+        return _SortTable({c: z3.Function(f"{prefix}{c}", z3.IntSort(), z3.RealSort()) for c in names}, n)
+
+    def sort_values(self, by=None, ascending=True, **k):
+        if not (isinstance(by, list) and len(by) == 2 and isinstance(ascending, list) and len(ascending) == 2 and all(isinstance(a, bool) for a in ascending)) or k:
+            raise sym.Unsupported("sort_values form")
+        cx = ctx()
+        _SortTable.n_made += 1
+        u = _SortTable.n_made
+        pi = z3.Function(f"sorted_from!{u}", z3.IntSort(), z3.IntSort())
+        inv = z3.Function(f"sorted_to!{u}", z3.IntSort(), z3.IntSort())
+        n = self.n
+        a, b = z3.Ints(f"a!s{u} b!s{u}")
+        k1, k2 = (lambda i: self.cols[by[0]](pi(i))), (lambda i: self.cols[by[1]](pi(i)))
+        lt = lambda x, y, asc: (x < y) if asc else (x > y)
+        cx.axiom("DataFrame.sort_values(by=[k1,k2], ascending=[a1,a2]): a permutation of the rows in lexicographic order",
+                 z3.And(z3.ForAll([a], z3.Implies(z3.And(a >= 0, a < n), z3.And(pi(a) >= 0, pi(a) < n, inv(pi(a)) == a, inv(a) >= 0, inv(a) < n, pi(inv(a)) == a))),
+                        z3.ForAll([a, b], z3.Implies(z3.And(a >= 0, a < b, b < n), z3.Or(lt(k1(a), k1(b), ascending[0]), z3.And(k1(a) == k1(b), z3.Or(lt(k2(a), k2(b), ascending[1]), k2(a) == k2(b))))))))
+        cols = {c: (lambda i, g=g: g(pi(i))) for c, g in self.cols.items()}
+        return _SortTable(cols, n, src=self, history=self.history + [("sort", by, ascending, pi, inv)])
+
+    def drop_duplicates(self, subset=None, **k):
+        if not isinstance(subset, str) or k:
+            raise sym.Unsupported("drop_duplicates form")
+        key = self.cols[subset]
+        n = self.n
+        j = z3.Int(f"j!d{len(self.history)}")
+        kept = lambda i: z3.And(i >= 0, i < n, z3.ForAll([j], z3.Implies(z3.And(j >= 0, j < i), key(j) != key(i))))
+        first = z3.Function(f"first_occurrence!{len(self.history)}", z3.IntSort(), z3.IntSort())
+        q = z3.Int(f"q!d{len(self.history)}")
+        ctx().axiom("drop_duplicates(subset=k): every row has a first occurrence of its value of k, which is kept (well-ordering of the row positions)",
+                    z3.ForAll([q], z3.Implies(z3.And(q >= 0, q < n), z3.And(first(q) >= 0, first(q) <= q, key(first(q)) == key(q), kept(first(q))))))
+        r = _SortTable(self.cols, n, src=self, kept=kept, history=self.history + [("drop", subset)])
+        r.first = first
+        return r
+
+    def reset_index(self, inplace=False, drop=False, **k):
+        self.reset = bool(inplace and drop)
+
+
+class DropDuplicates(Contract):
+    """Motl.drop_duplicates(): exactly one row per id survives, it is a best-scoring row of that id (highest score by default, lowest when
+    ascending is requested), rows are otherwise unchanged, index reset"""
+    prop = "C08"
+    module = "cryomotl"
+    qual = "Motl.drop_duplicates"
+    configs = [{"asc": False, "dup": "subtomo_id", "dec": "score"}, {"asc": True, "dup": "geom3", "dec": "geom1"}]
+
+    def cfg_name(self, cfg):
+        return f"{cfg['dup']} by {cfg['dec']},ascending={cfg['asc']}"
+
+    def bind(self, cx, cfg):
+        it = common.motl_interp()
+        T = _SortTable.fresh(MOTL_COLS, "dd_")
+        me = misc.SelfObj(it, "Motl", df=T)
+        f = it.function("Motl.drop_duplicates").bind(me)
+        kw = {} if (cfg["dup"], cfg["dec"], cfg["asc"]) == ("subtomo_id", "score", False) else {"duplicates_column": cfg["dup"], "decision_column": cfg["dec"], "decision_sort_ascending": cfg["asc"]}
+        return (lambda: f(**kw)), {"T": T, "me": me}
+
+    def post(self, cx, cfg, inp, res):
+        T, out = inp["T"], inp["me"].df
+        ok = isinstance(out, _SortTable) and out.kept is not None and [h[0] for h in out.history] == ["sort", "drop"] and out.reset
+        cl = [("sorted_then_first_occurrences_kept_index_reset", z3.BoolVal(bool(ok)))]
+        if not ok:
+            return cl
+        _, by, asc, pi, inv = out.history[0]
+        n = T.n
+        S = out.src                                   # the sorted table: the survivors are rows of it
+        ids, scs = S.cols[cfg["dup"]], S.cols[cfg["dec"]]
+        p_, q_ = z3.Ints("p!dd q!dd")
+        rng = lambda x: z3.And(x >= 0, x < n)
+        better = (lambda x, y: scs(x) <= scs(y)) if cfg["asc"] else (lambda x, y: scs(x) >= scs(y))
+        cl += [("survivor_is_a_best_scoring_row_of_its_id", z3.ForAll([p_, q_], z3.Implies(z3.And(rng(p_), rng(q_), out.kept(p_), ids(q_) == ids(p_)), better(p_, q_))), ()),
+               ("no_id_survives_twice", z3.ForAll([p_, q_], z3.Implies(z3.And(rng(p_), rng(q_), p_ != q_, out.kept(p_), out.kept(q_)), ids(p_) != ids(q_))), ()),
+               ("every_id_keeps_a_row", z3.ForAll([q_], z3.Implies(rng(q_), z3.And(rng(out.first(q_)), out.kept(out.first(q_)), ids(out.first(q_)) == ids(q_)))), ()),
+               ("rows_are_unchanged_rows_of_the_list_each_used_once", z3.ForAll([p_], z3.Implies(rng(p_), z3.And(rng(pi(p_)), inv(pi(p_)) == p_, *[S.cols[c](p_) == T.cols[c](pi(p_)) for c in MOTL_COLS]))), ())]
+        return cl
+
+    def replay(self, clause, model, cfg):
+        return {"reproduced": None, "why": "decided by the bounded histories"}
+
+
+CONTRACTS = [GetSubset, RemoveFeature, Intersection, MergeAndRenumber, RenumberParticles, SplitByFeature, DropDuplicates]
 LEVEL = "proof"
 EXPLANATION = ("Membership (with multiplicity), row preservation and the 20-field schema are postconditions of get_motl_subset, remove_feature, get_motl_intersection, "
                "merge_and_renumber (2 and 3 inputs: object numbers of different inputs differ for arbitrary rows, ids = position+1) and renumber_particles, proved on generic rows "
                "of the real AST; selection/removal complementarity as a lemma; since every operation's contract has wf(old) => wf(new) the schema holds after any history. "
-               "Order inside results, drop_duplicates (sort), renumber_objects_sequentially (groupby.apply) and merge_and_drop_duplicates: bounded histories only.")
+               "Order inside results, renumber_objects_sequentially (groupby.apply) and merge_and_drop_duplicates: bounded histories only.")
 ASSUMPTIONS = ["pandas contract: inner merge on a shared column repeats a left row once per matching right row, Series.drop_duplicates keeps one row per value; concat keeps all rows; min/max of a column bound every row",
                "requires of get_motl_subset: requested values distinct (duplicates would duplicate rows, as documented by the loop)"]
 
